@@ -50,6 +50,7 @@ type meterInput struct {
 	PeriodUS int    `json:"period_us"`
 	Seed     int64  `json:"seed"`
 	MaxDelay int    `json:"max_delay_us"`
+	WriteUS  int    `json:"write_us"`
 }
 
 type meterOutput struct {
@@ -190,7 +191,8 @@ func checkC18(c *Ctx) {
 		}
 		period := []int{1, 2, 5, 20, 100, 500, 2000}[rng.Intn(7)]
 		ins = append(ins, meterInput{ID: fmt.Sprintf("m%d", i+1), Script: sc, PeriodUS: period,
-			Seed: c.Seed*100003 + int64(i), MaxDelay: []int{0, 5, 50, 300}[rng.Intn(4)]})
+			Seed: c.Seed*100003 + int64(i), MaxDelay: []int{0, 5, 50, 300}[rng.Intn(4)],
+			WriteUS: []int{0, 0, 20, 200, 1000}[rng.Intn(5)]})
 	}
 	var recs []map[string]interface{}
 	inByID := map[string]meterInput{}
